@@ -647,7 +647,19 @@ class Unit:
             sig = sig[:pc2 + 1] + ' -> (r: ())' + sig[pc2 + 1:]
             self.log.append({'rule': 'N8', 'where': where, 'before': 'async fn .. (no return type)', 'after': '-> (r: ())'})
         body = src.text[bopen:it.end]
+        n_log = len(self.log)
         body = nz.body(body, where)
+        if self.strict_anchors:
+            # which exact-text rename rules (N3) fired inside this function, and how often: a rule that fired on the pinned tree
+            # and no longer does means an expression the verifier has no meaning for is now spelled differently and reaches
+            # Verus UNSPECIFIED - whatever fails because of it is undecided, not refuted (same rule as an N6 havoc)
+            fired = {}
+            for l in self.log[n_log:]:
+                if l.get('rule') == 'N3':
+                    fired[l['after']] = fired.get(l['after'], 0) + 1
+            self._rename_fp = ['rename x%d -> %s' % (c, a) for a, c in sorted(fired.items())]
+        else:
+            self._rename_fp = []
         if nobody and (block.get('loops') or block.get('ats') or block.get('loop_ats') or block.get('havocs')):
             raise GenError('%s is a declaration without body: only a contract can be attached' % spec)
         # N6 havocs
@@ -666,6 +678,7 @@ class Unit:
         inserts = []  # (pos, segs)
         lps = rs.loops(bm, 1, len(bm) - 1)
         fps = self.anchor_fp.setdefault(fid, [])
+        fps.extend(getattr(self, '_rename_fp', []))
         def loop_fp(n):
             kw, br = lps[n - 1]
             fps.append('loop %d of %d: %s' % (n, len(lps), ' '.join(body[kw:br].split())))
